@@ -1,10 +1,10 @@
 SPECIFICATION CSpec
 CONSTANTS
-  MaxPkts = 1
-  CrossOnly = FALSE
-  MaxAttempts = 1
+  MaxPkts = 2
+  MaxAttempts = 2
   MaxErrorCalls = 1
   Defects = {"ctxAtErrorTime"}
-VIEW StateView
+  CrossOnly = TRUE
+VIEW CrossView
 ACTION_CONSTRAINT EdgeEmit
 CHECK_DEADLOCK FALSE
